@@ -199,6 +199,10 @@ CORPUS = [
          old="\tb.closeR(io.ErrClosedPipe)\n\tfor buf := range reads {", new="\tb.closeR(io.ErrClosedPipe)\n\tb.Block = nil\n\tfor buf := range reads {"),
     dict(name="C17-benign-cancelr-loop-form", kind="benign", props=["C17"], file="internal/lz4stream/block.go",
          old="\tfor buf := range reads {\n\t\tlz4block.Put(buf)\n\t}\n}\n\n// closeR safely", new="\tfor {\n\t\tbuf, ok := <-reads\n\t\tif !ok {\n\t\t\tbreak\n\t\t}\n\t\tlz4block.Put(buf)\n\t}\n}\n\n// closeR safely"),
+    dict(name="C15-concurrent-writer-writes-after-a-failure", kind="break", props=["C15"], file="internal/lz4stream/block.go",
+         old="\t\t\t// Do not attempt to write the block upon any previous failure.\n\t\t\tif b.err == nil {", new="\t\t\t// Do not attempt to write the block upon any previous failure.\n\t\t\tif b.err == nil || block.Size > 0 {"),
+    dict(name="C06-read-keeps-going-after-a-block-error", kind="break", props=["C06"], file="reader.go",
+         old="\t\t\tdefault:\n\t\t\t\treturn\n\t\t\t}\n\t\t}\n\t\tif bn == 0 {", new="\t\t\tdefault:\n\t\t\t\tif n > 0 {\n\t\t\t\t\terr = nil\n\t\t\t\t}\n\t\t\t\treturn\n\t\t\t}\n\t\t}\n\t\tif bn == 0 {"),
     # ---- renamed locals (the `locals` line of the contract maps the old names by position) ----
     dict(name="C10-benign-rename-anchor", kind="benign", props=["C10"], file="internal/lz4block/block.go",
          regex=r"\banchor\b", new="anch"),
